@@ -9,15 +9,16 @@ TECHNIQUE = "explicit-state BFS over operation histories on the real objects vs 
 KINDS = ["fut_ret", "fut_raise", "const", "errfut", "at0_ret", "at0_raise", "at1_ret", "at1_raise",
          "batch_ok", "batch_raise", "item_ok", "item_err"]
 OPS = [("value",), ("error",), ("call",), ("is_computed",), ("set_value", "v1"), ("set_value", "v2"),
-       ("set_error", "e1"), ("set_error", "e2"), ("reset_unsafe",), ("sub", "good"), ("sub", "bad")]
+       ("set_error", "e1"), ("set_error", "e2"), ("reset_unsafe",), ("sub", "good"), ("sub", "bad"),
+       ("sub", "oneshot")]  # oneshot: a well-behaved callback that unsubscribes itself when notified
 TAIL = [("is_computed",), ("error",), ("value",), ("call",), ("set_value", "v2"), ("set_error", "e2"),
         ("is_computed",), ("value",), ("error",)]
 DEPTH = {"quick": 5, "thorough": 7}
 RULE = ("for each of 12 object kinds (Future with returning / raising provider, ConstFuture, ErrorFuture, AsyncTask "
         "without a yield returning / raising, AsyncTask yielding one harness batch item then returning / raising, "
         "harness BatchBase subclass with returning / raising flush body, harness batch item whose batch sets its value / "
-        "its error) ALL histories over the 11-operation alphabet {value(), error(), f(), is_computed(), set_value(v1|v2), "
-        "set_error(e1|e2), reset_unsafe(), subscribe well-behaved callback, subscribe callback raising Exception} up to "
+        "its error) ALL histories over the 12-operation alphabet {value(), error(), f(), is_computed(), set_value(v1|v2), "
+        "set_error(e1|e2), reset_unsafe(), subscribe well-behaved callback, subscribe callback raising Exception, subscribe one-shot callback that unsubscribes itself when notified} up to "
         "length 5 (quick) / 7 (thorough) are explored breadth-first on fresh real objects, merging histories only when "
         "(R4 state, is_computed(), _value, _error, per-subscriber notification counts, provider run count, generator / "
         "batch residue) coincide; every executed history is followed by a fixed 9-operation probe tail on the same live "
@@ -115,14 +116,15 @@ def _harness():
 class R4(object):
     def __init__(self, st):
         self.st = st  # None (uncomputed) | ("v", token) | ("e", token)
-        self.subs = []  # 'good' / 'bad', in subscription order
+        self.subs = []  # 'good' / 'bad' / 'oneshot', in subscription order
+        self.gone = []  # one-shot subscribers that have unsubscribed themselves
         self.counts = []  # notifications received per subscriber
         self.completions = 0
         self.runs = 0  # provider / body / flush-body runs in total
         self.runs_epoch = 0  # ... since construction or the last reset_unsafe()
 
     def key(self):
-        return (self.st, tuple(self.subs), tuple(self.counts), self.completions, self.runs, self.runs_epoch)
+        return (self.st, tuple(self.subs), tuple(self.gone), tuple(self.counts), self.completions, self.runs, self.runs_epoch)
 
 
 class World(object):
@@ -231,12 +233,14 @@ class World(object):
             return ("e", self.T.tok(f._error))
         return ("v", self.T.tok(f._value))
 
-    def _cb(self, cid, bad):
+    def _cb(self, cid, kind):
         def cb(fut):
             if fut is not self.obj:
                 self.trouble.append(("notify-argument", "subscriber called with %r instead of the future" % (fut,)))
             self.log.append((cid, bool(fut.is_computed()), self.obs()))
-            if bad:
+            if kind == "oneshot":
+                fut.on_computed.unsubscribe(cb)
+            if kind == "bad":
                 raise HErr(("cb", cid))
         return cb
 
@@ -290,7 +294,7 @@ class World(object):
         if name == "reset_unsafe":
             return call(f.reset_unsafe)
         if name == "sub":
-            return call(f.on_computed.subscribe, self._cb(len(self.m.subs), op[1] == "bad"))
+            return call(f.on_computed.subscribe, self._cb(len(self.m.subs), op[1]))
         raise ValueError(op)
 
     def _stat(self, k):
@@ -308,9 +312,12 @@ class World(object):
         for i in range(len(m.subs)):
             n = sum(1 for e in dlog if e[0] == i)
             m.counts[i] += n
-            if n != 1:
-                V.append(("notify-count", "completion #%d notified subscriber %d (%s) %d times instead of once; subscribers: %s"
-                          % (m.completions, i, m.subs[i], n, m.subs)))
+            want = 0 if m.gone[i] else 1
+            if n != want:
+                V.append(("notify-count", "completion #%d notified subscriber %d (%s) %d times instead of %d; subscribers: %s"
+                          % (m.completions, i, m.subs[i], n, want, m.subs)))
+            if m.subs[i] == "oneshot":
+                m.gone[i] = True
         for cid, saw, out in dlog:
             if not saw or out != m.st:
                 V.append(("notify-before-visible", "subscriber %d was notified while is_computed()=%r and the outcome read %r; "
@@ -415,6 +422,7 @@ class World(object):
                 V.append(("spurious-notification", "reset_unsafe() notified subscribers or ran the computation"))
         elif name == "sub":
             m.subs.append(op[1])
+            m.gone.append(False)
             m.counts.append(0)
             if druns:
                 V.append(("recomputed", "subscribing ran the computation"))
